@@ -6,8 +6,10 @@
    postSubmit closures; aggregator) and by the retriever (block/retriever.go handlePotentialHeader /
    handlePotentialData; full node); here they are INPUT events.  Blocks are identified by the harness's
    ids of header.Hash() and data.DACommitment(); id 0 of a data commitment = dataHashForEmptyTxs.
-   Heights below genesis.InitialHeight are holes of the block store (IHole).  A failing effect (datastore
-   write or SetFinal) is the item IFault: the loop returns its error and the node shuts down cleanly.
+   [base] = genesis.InitialHeight - 1: no block exists at or below it; the store height starts there and so
+   does (since the fix "DA inclusion with an initial height above 1") the DA-included height when no "d" is
+   persisted.  A failing effect (datastore write or SetFinal) is the item IFault: the loop returns its error
+   and the node shuts down cleanly.
    Definitions only; proofs are in Proofs/IncluderProofs.v. *)
 From Coq Require Import NArith List Bool.
 Import ListNotations.
@@ -49,9 +51,10 @@ Inductive eff := EPut (k : mkey) (v : N) | EFin (n : N)
   | EPub (n : N).   (* m.daIncludedHeight.CompareAndSwap: the height becomes visible to GetDAIncludedHeight() *)
 
 Record node := {
+  (* configuration *)
+  base : N;              (* genesis.InitialHeight - 1 *)
   (* durable *)
-  chain : list (option blk); (* block store: block of height i is the (i-1)-th element (None: no such block —
-                                heights below the initial height); store height = length *)
+  chain : list blk;      (* block store: the block of height base+i is the (i-1)-th element; store height = base + length *)
   meta : metaT;          (* metadata written by the includer *)
   sv_h : marks;          (* <root>/data/cache/header/da_included.gob as of the last SaveCache *)
   sv_d : marks;          (* <root>/data/cache/data/da_included.gob *)
@@ -63,21 +66,22 @@ Record node := {
   tr : list eff
 }.
 
-Definition init : node :=
-  {| chain := []; meta := []; sv_h := []; sv_d := []; di := 0; hm := []; dm := []; tr := [] |}.
+(* NewManager on an empty store with initial height b+1 (manager.go:413-419: no "d" -> InitialHeight-1) *)
+Definition init (b : N) : node :=
+  {| base := b; chain := []; meta := []; sv_h := []; sv_d := []; di := b; hm := []; dm := []; tr := [] |}.
 
 (* one effect.  incrementDAIncludedHeight: SetFinal, then Put "d", then CompareAndSwap of the volatile
    height — three separate effects, in this order (da_includer.go:58-73) *)
 Definition apply_eff (s : node) (e : eff) : node :=
   match e with
   | EPut k v =>
-      {| chain := chain s; meta := (k, v) :: meta s; sv_h := sv_h s; sv_d := sv_d s;
+      {| base := base s; chain := chain s; meta := (k, v) :: meta s; sv_h := sv_h s; sv_d := sv_d s;
          di := di s; hm := hm s; dm := dm s; tr := e :: tr s |}
   | EFin n =>
-      {| chain := chain s; meta := meta s; sv_h := sv_h s; sv_d := sv_d s;
+      {| base := base s; chain := chain s; meta := meta s; sv_h := sv_h s; sv_d := sv_d s;
          di := di s; hm := hm s; dm := dm s; tr := e :: tr s |}
   | EPub n =>
-      {| chain := chain s; meta := meta s; sv_h := sv_h s; sv_d := sv_d s;
+      {| base := base s; chain := chain s; meta := meta s; sv_h := sv_h s; sv_d := sv_d s;
          di := n; hm := hm s; dm := dm s; tr := e :: tr s |}
   end.
 Definition apply_effs (s : node) (es : list eff) : node := fold_left apply_eff es s.
@@ -85,16 +89,14 @@ Definition apply_effs (s : node) (es : list eff) : node := fold_left apply_eff e
 (* DAIncluderLoop body after a signal (da_includer.go:22-47), as recursion over the stored blocks above
    the current height [n]:
    - no block left: IsDAIncluded returns (false, nil) because syncedHeight < nextHeight -> break;
-   - a hole: store.GetBlockData fails, IsDAIncluded returns the error -> break;
    - IsDAIncluded (manager.go:481-496): header mark present && (empty data || data mark present);
    - SetRollkitHeightToDAHeight (manager.go:505-535): Put rhb/<n+1>/h := header DA height,
      Put rhb/<n+1>/d := (empty ? header DA height : data DA height);
    - incrementDAIncludedHeight (da_includer.go:54-83): SetFinal(n+1), Put d := n+1, CAS. *)
-Fixpoint incl_effs (hmk dmk : marks) (bs : list (option blk)) (n : N) : list eff :=
+Fixpoint incl_effs (hmk dmk : marks) (bs : list blk) (n : N) : list eff :=
   match bs with
   | [] => []
-  | None :: _ => []
-  | Some b :: r =>
+  | b :: r =>
       match mget hmk (bh b) with
       | None => []
       | Some hda =>
@@ -107,24 +109,27 @@ Fixpoint incl_effs (hmk dmk : marks) (bs : list (option blk)) (n : N) : list eff
       end
   end.
 
+(* the next height is at or below [base]: store.GetBlockData fails (no such block), IsDAIncluded returns the
+   error -> break.  (Not reachable from [init] since the fix; it is what the code did before: Example
+   before_the_repair_* in Props/C07.v.) *)
 Definition include_effs (s : node) : list eff :=
-  incl_effs (hm s) (dm s) (skipn (N.to_nat (di s)) (chain s)) (di s).
+  if (di s <? base s) then []
+  else incl_effs (hm s) (dm s) (skipn (N.to_nat (di s - base s)) (chain s)) (di s).
 
-(* NewManager (manager.go:405-416): reload "d" (absent -> 0), LoadCache from the files of the last SaveCache *)
-Definition kd (m : metaT) : N := match meta_get m KD with Some v => v | None => 0 end.
+(* NewManager (manager.go:413-424): reload "d" (absent -> InitialHeight-1), LoadCache from the files of the last SaveCache *)
+Definition kd (s : node) : N := match meta_get (meta s) KD with Some v => v | None => base s end.
 Definition boot (s : node) : node :=
-  {| chain := chain s; meta := meta s; sv_h := sv_h s; sv_d := sv_d s;
-     di := kd (meta s); hm := sv_h s; dm := sv_d s; tr := tr s |}.
-(* node/full.go:491 SaveCache at clean shutdown (taken as atomic; a torn cache file is C04's subject) *)
+  {| base := base s; chain := chain s; meta := meta s; sv_h := sv_h s; sv_d := sv_d s;
+     di := kd s; hm := sv_h s; dm := sv_d s; tr := tr s |}.
+(* node/full.go:491 SaveCache at clean shutdown (atomic since the fix "cache: write cache files atomically") *)
 Definition save (s : node) : node :=
-  {| chain := chain s; meta := meta s; sv_h := hm s; sv_d := dm s;
+  {| base := base s; chain := chain s; meta := meta s; sv_h := hm s; sv_d := dm s;
      di := di s; hm := hm s; dm := dm s; tr := tr s |}.
 
 (* the process [k] effects into an includer run: what an outside observer can last have seen of it *)
 Definition dying (s : node) (k : nat) : node := apply_effs s (firstn k (include_effs s)).
 
 Inductive item :=
-| IHole                    (* a height below genesis.InitialHeight: counted by the store height, no block *)
 | IAppend (b : blk)        (* a block is committed: SaveBlockData + SetHeight (producer or syncer) *)
 | IMarkH (id da : N)       (* headerCache.SetDAIncluded(hash, da): submitter postSubmit / handlePotentialHeader *)
 | IMarkD (id da : N)       (* dataCache.SetDAIncluded(commitment, da) *)
@@ -136,17 +141,14 @@ Inductive item :=
 
 Definition step (s : node) (i : item) : node :=
   match i with
-  | IHole =>
-      {| chain := chain s ++ [None]; meta := meta s; sv_h := sv_h s; sv_d := sv_d s;
-         di := di s; hm := hm s; dm := dm s; tr := tr s |}
   | IAppend b =>
-      {| chain := chain s ++ [Some b]; meta := meta s; sv_h := sv_h s; sv_d := sv_d s;
+      {| base := base s; chain := chain s ++ [b]; meta := meta s; sv_h := sv_h s; sv_d := sv_d s;
          di := di s; hm := hm s; dm := dm s; tr := tr s |}
   | IMarkH id da =>
-      {| chain := chain s; meta := meta s; sv_h := sv_h s; sv_d := sv_d s;
+      {| base := base s; chain := chain s; meta := meta s; sv_h := sv_h s; sv_d := sv_d s;
          di := di s; hm := (id, da) :: hm s; dm := dm s; tr := tr s |}
   | IMarkD id da =>
-      {| chain := chain s; meta := meta s; sv_h := sv_h s; sv_d := sv_d s;
+      {| base := base s; chain := chain s; meta := meta s; sv_h := sv_h s; sv_d := sv_d s;
          di := di s; hm := hm s; dm := (id, da) :: dm s; tr := tr s |}
   | IInclude => apply_effs s (include_effs s)
   | ICrash k => boot (dying s k)
@@ -155,34 +157,35 @@ Definition step (s : node) (i : item) : node :=
   end.
 
 Definition run_from (s : node) (h : list item) : node := fold_left step h s.
-Definition run (h : list item) : node := run_from init h.
+(* [run b h]: history [h] of a node whose genesis.InitialHeight is b+1 *)
+Definition run (b : N) (h : list item) : node := run_from (init b) h.
 
 (* ---- what the property talks about ------------------------------------------------------- *)
 Definition rep (s : node) : N := di s.                               (* GetDAIncludedHeight() *)
-Definition sheight (s : node) : N := N.of_nat (length (chain s)).    (* store.Height() *)
-Definition block_at (c : list (option blk)) (n : N) : option blk :=
-  if (n =? 0) then None else match nth_error c (N.to_nat (n - 1)) with Some (Some b) => Some b | _ => None end.
+Definition sheight (s : node) : N := base s + N.of_nat (length (chain s)).    (* store.Height() *)
+Definition block_at (s : node) (n : N) : option blk :=
+  if (n <=? base s) then None else nth_error (chain s) (N.to_nat (n - base s - 1)).
 (* what GetDAIncludedHeight() returns of a process [k] effects into an includer run after history [h] *)
-Definition seen_at_death (h : list item) (k : nat) : N := di (dying (run h) k).
+Definition seen_at_death (b : N) (h : list item) (k : nat) : N := di (dying (run b h) k).
 
-(* every value ever stored under "d" (= every value the reported height ever took), newest first *)
+(* every value ever stored under "d", newest first *)
 Definition dputs (t : list eff) : list N :=
   flat_map (fun e => match e with EPut KD v => [v] | _ => [] end) t.
 (* the executor's SetFinal log, newest first *)
 Definition fins (t : list eff) : list N :=
   flat_map (fun e => match e with EFin n => [n] | _ => [] end) t.
 
-(* l = [d; d-1; ...; 1] *)
-Fixpoint desc (l : list N) (d : N) : Prop :=
+(* l = [d; d-1; ...; b+1] *)
+Fixpoint desc (b : N) (l : list N) (d : N) : Prop :=
   match l with
-  | [] => d = 0
-  | x :: r => x = d /\ 0 < d /\ desc r (d - 1)
+  | [] => d = b
+  | x :: r => x = d /\ b < d /\ desc b r (d - 1)
   end.
-(* newest first: top m, every older entry equal to or one below its successor, oldest = 1 *)
-Fixpoint finsok (l : list N) (m : N) : Prop :=
+(* newest first: top m, every older entry equal to or one below its successor, oldest = b+1 *)
+Fixpoint finsok (b : N) (l : list N) (m : N) : Prop :=
   match l with
-  | [] => m = 0
-  | x :: r => x = m /\ 0 < m /\ (finsok r m \/ finsok r (m - 1))
+  | [] => m = b
+  | x :: r => x = m /\ b < m /\ (finsok b r m \/ finsok b r (m - 1))
   end.
 (* every publication of height n is preceded by the Put of "d" := n *)
 Fixpoint persisted_before (t : list eff) : Prop :=
@@ -223,12 +226,14 @@ Definition marked_h_ever (h : list item) (id : N) : bool :=
   existsb (fun i => match i with IMarkH i' _ => (i' =? id) | _ => false end) h.
 Definition marked_d_ever (h : list item) (id : N) : bool :=
   existsb (fun i => match i with IMarkD i' _ => (i' =? id) | _ => false end) h.
-Definition blocks_marked_ever (h : list item) (n : N) : bool :=      (* holes are not blocks *)
-  forallb (fun ob => match ob with None => true | Some b =>
-                     marked_h_ever h (bh b) && (bempty b || marked_d_ever h (bd b)) end)
-          (firstn (N.to_nat n) (chain (run h))).
+Definition blocks_marked_ever (b : N) (h : list item) (n : N) : bool :=
+  forallb (fun x => marked_h_ever h (bh x) && (bempty x || marked_d_ever h (bd x)))
+          (firstn (N.to_nat (n - b)) (chain (run b h))).
 (* the guard of the liveness theorem: ... and each of these marks was produced after the last crash *)
-Definition blocks_marked_since_crash (h : list item) (n : N) : bool :=   (* ... and there is no hole up to n *)
-  forallb (fun ob => match ob with None => false | Some b =>
-                     marked_h_since_crash (rev h) (bh b) && (bempty b || marked_d_since_crash (rev h) (bd b)) end)
-          (firstn (N.to_nat n) (chain (run h))).
+Definition blocks_marked_since_crash (b : N) (h : list item) (n : N) : bool :=
+  forallb (fun x => marked_h_since_crash (rev h) (bh x) && (bempty x || marked_d_since_crash (rev h) (bd x)))
+          (firstn (N.to_nat (n - b)) (chain (run b h))).
+
+(* the state NewManager produced BEFORE the fix for an initial height b+1 > 1: the count started at 0 *)
+Definition init_before_the_repair (b : N) : node :=
+  {| base := b; chain := []; meta := []; sv_h := []; sv_d := []; di := 0; hm := []; dm := []; tr := [] |}.
